@@ -5,9 +5,11 @@ import (
 	_ "verifsim/worlds/conn"
 	_ "verifsim/worlds/gmwworld"
 	_ "verifsim/worlds/kos"
+	_ "verifsim/worlds/leak"
 	_ "verifsim/worlds/mesh"
 	_ "verifsim/worlds/mulgadgets"
 	_ "verifsim/worlds/otpair"
+	_ "verifsim/worlds/sha2pcworld"
 	_ "verifsim/worlds/stream"
 	_ "verifsim/worlds/twopc"
 )
